@@ -277,12 +277,27 @@ func (this *partition) search(ctx context.Context, query []float32, k uint) (ind
 	return this.index.Search(ctx, query, k)
 }
 
+// Not held across the proposals below: the catalogue's apply loads and
+// unloads this partition's group under raftMu.
+func (this *partition) loadedRaft() (*raft.RaftGroup, error) {
+	this.raftMu.RLock()
+	defer this.raftMu.RUnlock()
+	if this.raft == nil {
+		return nil, RaftNotLoadedOnNodeErr
+	}
+	return this.raft, nil
+}
+
 func (this *partition) proposeAddNode(ctx context.Context, nodeId uint64) error {
+	raft, err := this.loadedRaft()
+	if err != nil {
+		return err
+	}
 	if err := this.datasetManager.addPartitionNode(ctx, this.dataset.id, this.id, nodeId); err != nil {
 		return err
 	}
 
-	return this.raft.ProposeJoin(nodeId, "")
+	return raft.ProposeJoin(nodeId, "")
 }
 
 func (this *partition) addNode(nodeId uint64) {
@@ -294,11 +309,15 @@ func (this *partition) addNode(nodeId uint64) {
 }
 
 func (this *partition) proposeRemoveNode(ctx context.Context, nodeId uint64) error {
+	raft, err := this.loadedRaft()
+	if err != nil {
+		return err
+	}
 	if err := this.datasetManager.removePartitionNode(ctx, this.dataset.id, this.id, nodeId); err != nil {
 		return err
 	}
 
-	return this.raft.ProposeLeave(nodeId)
+	return raft.ProposeLeave(nodeId)
 }
 
 func (this *partition) removeNode(nodeId uint64) {
